@@ -98,6 +98,9 @@ def run(ctx):
     ctx.rule('R03.4', 'every strategy the strategy table can hold hits only non-raising arms where it lands; "fail" only on constant/string-typed paths',
              floor=40, floor_what='(path, strategy, resolver) triples')
     ctx.rule('R03.5', 'the internal parent_deleted pseudo-op stays internal (one producer, first arms of the consumer, sentinel tested before patch)', floor=4)
+    ctx.rule('R03.7', 'index arithmetic of the concurrent-insert splitter is consistent across its arms (wrong offsets index past the remote list)', floor=4)
+    ctx.rule('R03.8', 'the built-in renderer indexes its line lists only behind an emptiness test', floor=4)
+    ctx.rule('R03.9', 'the per-field dispatch that merges two similar inserted cells has an arm for every field the cell schema defines', floor=5)
     ctx.rule('R03.6', 'renderer selection is total (unconditional built-in fallback) and every renderer returns a 2-tuple on every path', floor=5)
 
     consts = mf.diffop_consts(repo)
@@ -399,6 +402,69 @@ def run(ctx):
                  'callers can always unpack two values' if ok else
                  ('a return is not a (text, status) pair: %s' % repo.norm(bad[0]) if bad else 'a path returns None'),
                  bad[0] if bad else fn)
+    # ---------------------------------------------------------------- R03.7 index arithmetic of the concurrent-insert splitter
+    from .c09 import split_addrange_algebra
+    split_addrange_algebra(ctx, 'R03.7')
+    # ---------------------------------------------------------------- R03.8 constant indices into possibly-empty line lists are guarded
+    from ..util import truth_under
+    for name in ('format_merge_render_lines', 'merge_render_with_git', 'builtin_merge_render'):
+        fn = repo.func('%s:%s' % (PPM, name))
+        g = CFG(fn)
+        params = {a.arg for a in fn.args.args}
+        defs = local_defs(fn)
+        for n in walk_no_nested(fn):
+            if isinstance(n, ast.Subscript) and isinstance(n.value, ast.Name) and isinstance(n.slice, (ast.Constant, ast.UnaryOp)) and \
+                    isinstance(const_val(n.slice) if isinstance(n.slice, ast.Constant) else -1, int):
+                var = n.value.id
+                is_lines = var in params or any(isinstance(v, ast.Call) and isinstance(v.func, ast.Attribute) and v.func.attr == 'splitlines'
+                                                for v, k, s2 in defs.get(var, []))
+                if not is_lines or var in ('cmd',):
+                    continue
+                st = repo.stmt_of(n)
+                guards = cond_guards(g, st)
+                ok = any(truth_under(t, pol, lambda e: isinstance(e, ast.Name) and e.id == var) is True for t, pol in guards)
+                # earlier conjunct of the same `and`
+                p = repo.parent(n)
+                while p is not None and not isinstance(p, ast.stmt):
+                    if isinstance(p, ast.BoolOp) and isinstance(p.op, ast.And):
+                        for v in p.values:
+                            if any(x is n for x in ast.walk(v)):
+                                break
+                            if isinstance(v, ast.Name) and v.id == var:
+                                ok = True
+                    p = repo.parent(p)
+                if name == 'merge_render_with_git' and not ok:
+                    ctx.note('unarmed: merge_render_with_git indexes %s without an emptiness guard (git merge-file output for differing inputs could not be driven to empty)' % repo.norm(n))
+                    continue
+                ctx.inst('R03.8', '%s:%s' % (PPM, name), repo.norm(n), ok, 'index into %s only after it was tested non-empty' % var if ok else
+                         '%s can be an empty list (a side whose text is empty): constant index raises IndexError and aborts the merge where the built-in renderer is used' % var, n)
+    # ---------------------------------------------------------------- R03.9 field dispatch of merged similar inserts is total over the cell schema
+    rir = repo.func(STR + ':resolve_strategy_inline_recurse')
+    kchain = None
+    for n in walk_no_nested(rir):
+        if isinstance(n, ast.If) and compare_eq_const(n.test) and compare_eq_const(n.test)[0] == 'k':
+            kchain = n
+            break
+    if kchain is None:
+        raise AnalysisError('resolve_strategy_inline_recurse: key dispatch not found')
+    karms, kelse = if_chain(kchain)
+    handled_keys = set()
+    for test, body, node in karms:
+        r = compare_eq_const(test)
+        if r and r[2]:
+            handled_keys |= set(r[1])
+    raises = bool(kelse) and isinstance(kelse[-1], ast.Raise)
+    cell_keys = set()
+    for cname, cdef in sch.cell_defs().items():
+        cell_keys |= set(cdef.get('properties', {}))
+    # cell_type is asserted equal before the dispatch
+    asserted = {const_val(x.slice) for st in walk_no_nested(rir) if isinstance(st, ast.Assert) for x in ast.walk(st.test) if isinstance(x, ast.Subscript)}
+    for k in sorted(cell_keys - asserted):
+        ok = k in handled_keys or not raises
+        ctx.inst('R03.9', STR + ':resolve_strategy_inline_recurse', 'cell field %r' % k, ok,
+                 'a difference in this field of two similar inserted cells is handled' if ok else
+                 'two similar cells inserted on both sides that differ in %r make the merge raise ValueError("Conflict on unrecognized key")' % k, kchain)
+
     ctx.note('unarmed: merge_render_with_git indexes merged.splitlines(True)[-1] without an emptiness guard; '
              '_split_addrange / resolve_strategy_inline_recurse carry input-shape asserts (reachability not decided)')
 
